@@ -146,7 +146,7 @@ def run(pid, tier, seed, replay, t0):
 
     # drift detection (never fails a check; escalates the tier of generation)
     drift = {}
-    state_f = C.LEAN / ".lake" / f"anchors_{pid}.json"
+    state_f = C.LEAN / ".lake" / (f"anchors_{pid}.json" if str(C.REPO) == "/repo" else f"anchors_{pid}_{abs(hash(str(C.REPO))) % 10**8}.json")
     try:
         old = json.loads(state_f.read_text())
     except Exception:
